@@ -10,6 +10,7 @@ import TxVerif.Model.Lock
 import TxVerif.Props.C18
 import TxVerif.Model.CodecDriver
 import TxVerif.Model.Crash
+import TxVerif.Model.CrashFail
 import TxVerif.Model.PQDriver
 import TxVerif.Model.PQCounters
 open TxVerif
@@ -172,19 +173,52 @@ def crashProgram (lines : List String) : Nat × Option String :=
       | none => (n, some s!"operation #{n} `{l}` violates the commit discipline (committed state {c.aSt}, txid {c.aTx}, slot {c.aSlot}, in flight {c.inflight}, {c.pending.length} pending)")
   go c0 0 ops
 
-partial def crashLoop (h : IO.FS.Stream) (acc : List String) (prog : String) (checked mism progs : Nat) : IO (Nat × Nat × Nat) := do
+def TxVerif.Phase.show : Phase → String
+  | .normal => "normal" | .failed st => s!"final sync of state {st} failed" | .restoring st => s!"restoring after failed commit of state {st}"
+
+/-- the same for operation logs that contain failing syncs (`sf`): the extended discipline
+    `FCfg.step` (Model/CrashFail.lean: failed data sync, failed final sync, restoreMeta) -/
+def crashFailProgram (lines : List String) : Nat × Option String :=
+  let states : List (Nat × List (Nat × Nat)) := lines.filterMap fun l =>
+    match l.splitOn " " with
+    | ["state", n, r] => n.toNat?.map fun n => (n, parseReach r)
+    | _ => none
+  let reachOf : Nat → List (Nat × Nat) := fun st => ((states.find? (·.1 == st)).map (·.2)).getD []
+  let initPages : List (Nat × Nat) := (lines.filterMap fun l =>
+    match l.splitOn " " with | ["init", r] => some (parseReach r) | _ => none).flatten
+  let c0 : Cfg := {
+    durable := { pages := fun p => (initPages.find? (·.1 == p)).map (·.2),
+                 slots := fun k => if k = 0 then some (1, 0) else if k = 1 then some (0, 0) else none },
+    pending := [], aSlot := 0, aTx := 1, aSt := 0, inflight := none }
+  let ops : List (String × FOp) := lines.filterMap fun l =>
+    match l.splitOn " " with
+    | ["w", p, h] => match p.toNat?, h.toNat? with | some p, some h => some (l, FOp.op (TOp.write p h)) | _, _ => none
+    | ["h", s, t, st] => match s.toNat?, t.toNat?, st.toNat? with | some s, some t, some st => some (l, FOp.op (TOp.hdr s t st)) | _, _, _ => none
+    | ["s"] => some (l, FOp.op TOp.sync)
+    | ["sf"] => some (l, FOp.syncFail)
+    | ["t", n] => n.toNat?.map fun n => (l, FOp.op (TOp.trunc n))
+    | _ => none
+  let rec go (c : FCfg) (n : Nat) : List (String × FOp) → Nat × Option String
+    | [] => (n, none)
+    | (l, op) :: rest =>
+      match c.step reachOf op with
+      | some c' => go c' (n + 1) rest
+      | none => (n, some s!"operation #{n} `{l}` violates the commit discipline with failing syncs (committed state {c.base.aSt}, txid {c.base.aTx}, slot {c.base.aSlot}, in flight {c.base.inflight}, {c.base.pending.length} pending, phase: {c.phase.show})")
+  go (FCfg.ofCfg c0) 0 ops
+
+partial def crashLoop (h : IO.FS.Stream) (acc : List String) (prog : String) (checked mism progs : Nat) (withFail : Bool := false) : IO (Nat × Nat × Nat) := do
   let line ← h.getLine
   if line.isEmpty then return (checked, mism, progs)
   let l := line.trimAscii.toString
-  if l.startsWith "program " then crashLoop h [] l checked mism progs
+  if l.startsWith "program " then crashLoop h [] l checked mism progs withFail
   else if l == "end" then
-    let (n, err) := crashProgram acc.reverse
+    let (n, err) := if withFail then crashFailProgram acc.reverse else crashProgram acc.reverse
     match err with
-    | none => crashLoop h [] "" (checked + n) mism (progs + 1)
+    | none => crashLoop h [] "" (checked + n) mism (progs + 1) withFail
     | some e => do
       IO.println s!"MISMATCH {prog}: {e}"
-      crashLoop h [] "" (checked + n) (mism + 1) (progs + 1)
-  else crashLoop h (l :: acc) prog checked mism progs
+      crashLoop h [] "" (checked + n) (mism + 1) (progs + 1) withFail
+  else crashLoop h (l :: acc) prog checked mism progs withFail
 
 /-- pqhdr mode: every queue header observed on the implementation must satisfy the header
     invariant for the specification counters, and Pending/Active must be what the model computes -/
@@ -243,6 +277,10 @@ def main (args : List String) : IO UInt32 := do
     return (if mism == 0 then 0 else 1)
   | "crash" =>
     let (checked, mism, progs) ← crashLoop stdin [] "" 0 0 0
+    IO.println s!"DONE checked={checked} mismatches={mism} bad=0 programs={progs}"
+    return (if mism == 0 then 0 else 1)
+  | "crashfail" =>
+    let (checked, mism, progs) ← crashLoop stdin [] "" 0 0 0 true
     IO.println s!"DONE checked={checked} mismatches={mism} bad=0 programs={progs}"
     return (if mism == 0 then 0 else 1)
   | "path" =>
